@@ -15,6 +15,7 @@ import (
 	"os/exec"
 	"path/filepath"
 	"reflect"
+	"runtime/debug"
 	"strconv"
 	"strings"
 	"time"
@@ -194,6 +195,7 @@ type op struct {
 	files []fileSpec
 	args  []string
 	twice bool
+	dump  bool // `C` instead of `B`: the option variables are also rendered after the FIRST Parse
 	args2 []string
 	h     uint64 // hash of the line: source of the harness-side variations that must not change the result
 }
@@ -270,9 +272,10 @@ func parseLine(line string) *op {
 				continue
 			}
 		}
-		if sec == 4 && w == "B" {
+		if sec == 4 && (w == "B" || w == "C") {
 			sec = 5
 			o.twice = true
+			o.dump = w == "C"
 			continue
 		}
 		switch sec {
@@ -471,27 +474,39 @@ func executeOn(cl *cmdline.CmdLine, o *op, args []string) string {
 		}
 	}
 	rest := cl.Parse(args)
+	var sb strings.Builder
+	state := func(rest []string) {
+		sb.WriteString("ok")
+		for _, r := range renderers {
+			sb.WriteByte(' ')
+			sb.WriteString(r())
+		}
+		sb.WriteString(" |")
+		for _, s := range rest {
+			sb.WriteByte(' ')
+			sb.WriteString(hx.Hex([]byte(s)))
+		}
+	}
 	var rest1 []string
+	first := ""
 	if o.twice {
 		rest1 = append([]string(nil), rest...)
+		if o.dump {
+			state(rest1)
+			first = sb.String()
+			sb.Reset()
+		}
 		rest = cl.Parse(spare(o.args2, extras[int(o.h>>24)%len(extras)]))
 	}
-	var sb strings.Builder
-	sb.WriteString("ok")
-	for _, r := range renderers {
-		sb.WriteByte(' ')
-		sb.WriteString(r())
-	}
-	sb.WriteString(" |")
-	for _, s := range rest {
-		sb.WriteByte(' ')
-		sb.WriteString(hx.Hex([]byte(s)))
-	}
+	state(rest)
 	if o.twice {
 		sb.WriteString(" ||")
 		for _, s := range rest1 {
 			sb.WriteByte(' ')
 			sb.WriteString(hx.Hex([]byte(s)))
+		}
+		if o.dump {
+			sb.WriteString(" ||| " + first)
 		}
 	}
 	return sb.String()
@@ -621,13 +636,54 @@ func runFx(f []string) {
 // registration), `u<k>` unregisters the id the k-th Register returned (an id never handed out if there is no such
 // call). Then Exit(status), which must not return.
 func runAx(f []string, h uint64) {
+	// an Exit that recurses without bound must die at once (a Go stack may grow to 1 GB, which takes many seconds)
+	debug.SetMaxStack(32 << 20)
 	if h&1 == 1 {
 		atexit.RecoveryHandler = nil
 	}
-	status, err := strconv.Atoi(f[1])
-	if err != nil {
-		fmt.Println("R bad-op")
-		return
+	// how the process ends: a number = atexit.Exit(number) called directly; M / E / I / N = FatalMsg, FatalError,
+	// FatalIfError(err), FatalIfError(nil); P<incl>:<args> = Parse of that vector on a command line with the options
+	// n/name (string), a (flag), i/int (int8)
+	status := 1
+	var finish func()
+	switch term := f[1]; {
+	case term == "M" || term == "E" || term == "I" || term == "N":
+		finish = func() {
+			cl := cmdline.New(false)
+			switch term {
+			case "M":
+				cl.FatalMsg(fxMark)
+			case "E":
+				cl.FatalError(errors.New(fxMark))
+			case "I":
+				cl.FatalIfError(errors.New(fxMark))
+			case "N":
+				cl.FatalIfError(nil)
+			}
+		}
+	case strings.HasPrefix(term, "P"):
+		p := strings.Split(term[1:], ":")
+		if len(p) != 2 {
+			fmt.Println("R bad-op")
+			return
+		}
+		args := decList(p[1])
+		finish = func() {
+			cl := cmdline.New(p[0] == "1")
+			name, flag, num := "d", false, int8(7)
+			cl.NewGeneralOption(&name).SetSingle('n').SetName("name")
+			cl.NewGeneralOption(&flag).SetSingle('a')
+			cl.NewGeneralOption(&num).SetSingle('i').SetName("int")
+			cl.Parse(args)
+		}
+	default:
+		st, err := strconv.Atoi(term)
+		if err != nil {
+			fmt.Println("R bad-op")
+			return
+		}
+		status = st
+		finish = func() { atexit.Exit(st) }
 	}
 	var ids []int
 	idOf := func(k int) int {
@@ -684,8 +740,8 @@ func runAx(f []string, h uint64) {
 			return
 		}
 	}
-	atexit.Exit(status)
-	fmt.Println("\nR exit-returned")
+	finish()
+	fmt.Println("\nR returned")
 }
 
 func runChild(line string) {
@@ -819,6 +875,55 @@ func childOnce(line string, limit time.Duration) string {
 	return fmt.Sprintf("child:status=%d:atexit=%v:result=%q", status, ranAtexit, result)
 }
 
+// runGs drives a GeneralValue directly: gs|gf <kind> <initial contents> <raw>…; String() at the start and after every Set,
+// up to the first Set that fails (gs) or through all of them (gf) (kinds whose %v text the model owns: bool, the integer kinds, string, and their slices)
+func runGs(f []string) string {
+	if len(f) < 3 {
+		return "bad-op"
+	}
+	slice := strings.HasPrefix(f[1], "[]")
+	b := baseByName(strings.TrimPrefix(f[1], "[]"))
+	if b == nil || strings.HasPrefix(b.name, "float") || b.name == "duration" {
+		return "bad-op"
+	}
+	defs := decList(f[2])
+	var ptr reflect.Value
+	if slice {
+		ptr = reflect.New(reflect.SliceOf(b.typ))
+		for _, raw := range defs {
+			v, err := b.parse(raw)
+			if err != nil {
+				return "bad-op"
+			}
+			ptr.Elem().Set(reflect.Append(ptr.Elem(), reflect.ValueOf(v)))
+		}
+	} else {
+		if len(defs) != 1 {
+			return "bad-op"
+		}
+		v, err := b.parse(defs[0])
+		if err != nil {
+			return "bad-op"
+		}
+		ptr = reflect.New(b.typ)
+		ptr.Elem().Set(reflect.ValueOf(v))
+	}
+	gv := &cmdline.GeneralValue{Value: ptr.Interface()}
+	out := []string{hx.Hex([]byte(gv.String()))}
+	for _, w := range f[3:] {
+		if err := gv.Set(string(hx.UnHex(w))); err != nil {
+			if f[0] == "gf" { // the history goes on: what the failing Set left in the variable is compared too
+				out = append(out, "err:"+hx.Hex([]byte(gv.String())))
+				continue
+			}
+			out = append(out, "err")
+			break
+		}
+		out = append(out, hx.Hex([]byte(gv.String())))
+	}
+	return strings.Join(out, " ")
+}
+
 type area struct{}
 
 func (area) Run(line string) string {
@@ -837,6 +942,9 @@ func (area) Run(line string) string {
 			return "bad-op"
 		}
 		return viaChild(line)
+	}
+	if strings.HasPrefix(line, "gs ") || strings.HasPrefix(line, "gf ") {
+		return hx.Safe(func() string { return runGs(strings.Fields(line)) })
 	}
 	o := parseLine(line)
 	if o == nil {
